@@ -638,6 +638,10 @@ func (b *bitstream) ReadTimestamp() (Timestamp, error) {
 	}
 	length -= olength
 
+	if length == 0 {
+		return Timestamp{}, &SyntaxError{"invalid timestamp - year is missing", b.pos}
+	}
+
 	ts := []int{1, 1, 1, 0, 0, 0}
 	precision := TimestampNoPrecision
 	for i := 0; length > 0 && i < 6 && precision < TimestampPrecisionSecond; i++ {
